@@ -1380,8 +1380,9 @@ def probe_aliasing_dtype(ctx):
                     ctx.fail(f'{lname}:kl-loss', f'{name}: knill_laflamme_loss({kind}) of the library inner products = {v}', dict(code=name, op='knill_laflamme_loss', kind=kind, value=v))
                 else:
                     ctx.probe_ok((lname, 'loss-fed-back', kind))
-            # integer / real basis states through encoders made of real gates only (complex controlled gates on real states: reported separately)
-            if all(g[0] in ('h', 'x', 'z', 'cx', 'cz') for g in c['encode']):
+            # integer / real / single-precision basis states through every encoder (incl. complex controlled gates:
+            # sim.state.apply_control_n_gate lost the imaginary part on real-dtype states before the C03 repair)
+            if True:
                 for dt in (np.int64, np.float64, np.float32, np.complex64):
                     q0 = np.zeros(2 ** n, dtype=dt); q0[K - 1] = 1
                     keep = q0.copy()
